@@ -2,6 +2,7 @@
 EXTENDS Governance, Json
 
 \* ---- constants of the configurations (sets of sets / functions cannot be written in a .cfg)
+A1 == {"a1"}
 A2 == {"a1", "a2"}
 A3 == {"a1", "a2", "a3"}
 \* candidates: c2 and c3 are "twins": ids that differ only in the bytes the code's tie-break ignores
@@ -22,6 +23,7 @@ D2Vals == [i \in D2 |-> IF i = "STAKINGMIN" THEN {10000, 20000} ELSE {2}]
 D0 == {}
 D0Vals == [i \in D0 |-> {}]
 
+N0 == {}
 N1 == {"n1"}
 N2 == {"n1", "n2"}
 Defaults == [p \in ParamIds |-> CASE p = "BPCOUNT" -> 3 [] p = "STAKINGMIN" -> 10000 [] p = "NAMEPRICE" -> 1]
